@@ -155,6 +155,97 @@ theorem cand_mem (C : Ctx α) (g : Network α) (net : Net α) (hR : Rep geoOf g 
           simp [hmid] at this
         | some n => simp [find_id hf]
 
+/-! ### `From` lists every neighbour exactly once -/
+
+theorem insertSorted_sorted (x : Nat) : ∀ l : List Nat, l.Pairwise (· < ·) → (insertSorted x l).Pairwise (· < ·) := by
+  intro l
+  induction l with
+  | nil => intro _; simp [insertSorted]
+  | cons y ys ih =>
+    intro h
+    have hy := List.pairwise_cons.1 h
+    simp only [insertSorted]
+    by_cases h1 : x < y
+    · simp only [if_pos h1]
+      refine List.pairwise_cons.2 ⟨?_, h⟩
+      intro z hz
+      rcases List.mem_cons.1 hz with rfl | hz
+      · exact h1
+      · exact Nat.lt_trans h1 (hy.1 z hz)
+    · simp only [if_neg h1]
+      by_cases h2 : x = y
+      · simp only [if_pos h2]; exact h
+      · simp only [if_neg h2]
+        refine List.pairwise_cons.2 ⟨?_, ih hy.2⟩
+        intro z hz
+        rcases (mem_insertSorted z x ys).1 hz with rfl | hz
+        · omega
+        · exact hy.1 z hz
+
+/-- the model's `neighborIds` lists no id twice -/
+theorem neighborIds_nodup (net : Net α) (u : Nat) : (neighborIds net u).Nodup := by
+  unfold neighborIds
+  have key : ∀ (es : List (MEdge α)) (acc : List Nat), acc.Pairwise (· < ·) →
+      (es.foldl (fun acc e => if e.a = u then insertSorted e.b acc else if e.b = u then insertSorted e.a acc else acc) acc).Pairwise (· < ·) := by
+    intro es
+    induction es with
+    | nil => intro acc h; exact h
+    | cons e es ih =>
+      intro acc h
+      simp only [List.foldl_cons]
+      apply ih
+      split
+      · exact insertSorted_sorted _ _ h
+      · split
+        · exact insertSorted_sorted _ _ h
+        · exact h
+  exact (key net.edges [] List.Pairwise.nil).imp (fun h => Nat.ne_of_lt h)
+
+/-- under `Rep` every key of `neighbors[u]` is the id of a stored node, so `From(u)` lists exactly the keys, in the order visited -/
+theorem cand_eq_keys (C : Ctx α) (g : Network α) (net : Net α) (hR : Rep geoOf g net) (u : Nat)
+    (hperm : (C.mo.perm (mapGetD g.neighbors u [])).Perm (mapGetD g.neighbors u []))
+    (hends : ∀ e ∈ net.edges, hasNode net e.a = true ∧ hasNode net e.b = true) :
+    candOf C g u = (C.mo.perm (mapGetD g.neighbors u [])).map Prod.fst := by
+  unfold candOf
+  rw [← List.filterMap_eq_map]
+  apply List.filterMap_congr
+  intro kv hkv
+  rw [hperm.mem_iff] at hkv
+  have hl := lookup_isSome_of_mem _ kv hkv
+  have hnb := hR.nb u kv.1
+  unfold NbRel at hnb
+  have hx : hasNode net kv.1 = true := by
+    cases hm : neighbor net u kv.1 with
+    | none =>
+      rw [hm] at hnb
+      cases hl2 : lookup kv.1 (mapGetD g.neighbors u []) with
+      | none => rw [hl2] at hl; cases hl
+      | some v => rw [hl2] at hnb; cases v <;> simp at hnb
+    | some me =>
+      obtain ⟨hme, hj⟩ := neighbor_some net u kv.1 me hm
+      rcases hj with ⟨_, b⟩ | ⟨a, _⟩
+      · rw [← b]; exact (hends me hme).2
+      · rw [← a]; exact (hends me hme).1
+  rw [nodeMap_get hR]
+  rw [hasNode_iff] at hx
+  obtain ⟨m, hm, hmid⟩ := hx
+  cases hf : net.nodes.find? (fun n => n.id == kv.1) with
+  | none =>
+    have := List.find?_eq_none.1 hf m hm
+    simp [hmid] at this
+  | some n => simp [find_id hf]
+
+/-- **`From(u)` is a permutation of the model's `neighborIds net u`**: every neighbour exactly once (the keys of a Go map are
+distinct: `Rep.nbNodup`, maintained by every `AddLink`), whatever order the map is visited in -/
+theorem tie_From_perm (C : Ctx α) (g : Network α) (net : Net α) (hR : Rep geoOf g net) (u : Nat)
+    (hperm : (C.mo.perm (mapGetD g.neighbors u [])).Perm (mapGetD g.neighbors u []))
+    (hends : ∀ e ∈ net.edges, hasNode net e.a = true ∧ hasNode net e.b = true) :
+    (candOf C g u).Perm (neighborIds net u) := by
+  have hnd : (candOf C g u).Nodup := by
+    rw [cand_eq_keys C g net hR u hperm hends]
+    exact ((hperm.map Prod.fst).nodup_iff).2 (hR.nbNodup u)
+  exact (List.perm_ext_iff_of_nodup hnd (neighborIds_nodup net u)).2 (fun x => cand_mem C g net hR u hperm hends x)
+
 theorem ordOf_cand (C : Ctx α) (g : Network α) (net : Net α) (hR : Rep geoOf g net) (u : Nat)
     (hperm : (C.mo.perm (mapGetD g.neighbors u [])).Perm (mapGetD g.neighbors u []))
     (hends : ∀ e ∈ net.edges, hasNode net e.a = true ∧ hasNode net e.b = true) :
